@@ -1,0 +1,58 @@
+//go:build verif
+
+package bufiox
+
+import "unsafe"
+
+// Observation hooks for the ownership checks (C09/C14) of the verification framework.
+// Add-only, compiled only with -tags verif; nothing here changes behaviour.
+
+// VerifOwnBuf describes one buffer: data pointer, len, cap (Base == 0 for a nil/zero-cap slice).
+type VerifOwnBuf struct {
+	Base uintptr
+	Len  int
+	Cap  int
+}
+
+func verifOwnBuf(b []byte) VerifOwnBuf {
+	if cap(b) == 0 {
+		return VerifOwnBuf{}
+	}
+	return VerifOwnBuf{Base: *(*uintptr)(unsafe.Pointer(&b)), Len: len(b), Cap: cap(b)}
+}
+
+// VerifOwnReaderState is the buffer-level state of a DefaultReader.
+type VerifOwnReaderState struct {
+	Buf      VerifOwnBuf
+	Pending  []VerifOwnBuf
+	Ri       int
+	ReadOnly bool
+	ErrSet   bool
+}
+
+// VerifOwnReader reports the buffers a DefaultReader currently holds.
+func VerifOwnReader(r *DefaultReader) VerifOwnReaderState {
+	st := VerifOwnReaderState{Buf: verifOwnBuf(r.buf), Ri: r.ri, ReadOnly: r.bufReadOnly, ErrSet: r.err != nil}
+	for _, p := range r.pendingBuf {
+		st.Pending = append(st.Pending, verifOwnBuf(p))
+	}
+	return st
+}
+
+// VerifOwnWriterState is the buffer-level state of a DefaultWriter.
+type VerifOwnWriterState struct {
+	Buf          VerifOwnBuf
+	Pending      []VerifOwnBuf
+	DisableCache bool
+	ErrSet       bool
+	NonNil       bool // w.buf != nil
+}
+
+// VerifOwnWriter reports the buffers a DefaultWriter currently holds.
+func VerifOwnWriter(w *DefaultWriter) VerifOwnWriterState {
+	st := VerifOwnWriterState{Buf: verifOwnBuf(w.buf), DisableCache: w.disableCache, ErrSet: w.err != nil, NonNil: w.buf != nil}
+	for _, p := range w.pendingBuf {
+		st.Pending = append(st.Pending, verifOwnBuf(p))
+	}
+	return st
+}
